@@ -238,5 +238,30 @@ def run(ctx):
                     ctx.disagree("arith:mismatch", f"operands changed by a refused {opname}", {"op": opname})
 
 
+    # ---- normalize() over twenty orders of magnitude: the result is v / ||v|| whatever the scale of v ------------------
+    for case in range(8 if quick else 60):
+        params = rng.choice([[[2, 0, 2]], [[2, 0, 3], [3, 1, 3]], [[1, 1, 2], [2, 0, 2], [3, -1, 2]]])
+        w = fqe.Wavefunction(params)
+        scale = 10.0 ** rng.choice([3, 0, -6, -9, -10, -12, -20, -30])
+        nr_ = numpy.random.RandomState(rng.randrange(2 ** 31))
+        data = {k: (nr_.randint(-4, 5, w.get_coeff(k).shape) + 1j * nr_.randint(-4, 5, w.get_coeff(k).shape)).astype(numpy.complex128) * scale
+                for k in w.sectors()}
+        if all(not numpy.any(v) for v in data.values()):
+            continue
+        w.set_wfn(strategy="from_data", raw_data={k: v.copy() for k, v in data.items()})
+        nrm = float(numpy.sqrt(sum(numpy.vdot(v, v).real for v in data.values())))
+        try:
+            w.normalize()
+        except Exception as exc:
+            ctx.disagree(f"normalize-raises:{type(exc).__name__}", str(exc)[:200], {"scale": scale, "params": params})
+            continue
+        worst = max(float(numpy.abs(w.get_coeff(k) - data[k] / nrm).max()) for k in data)
+        ctx.case(("normalize", case))
+        ctx.count(f"normalize:scale=1e{int(round(numpy.log10(scale)))}")
+        if worst > 1e-12 or abs(w.norm() - 1.0) > 1e-12:
+            ctx.disagree("arith:normalize", f"normalize() of a state of norm {nrm:.3e}: max deviation from v/||v|| {worst:.3e}, "
+                         f"norm afterwards {w.norm():.3e}", {"scale": scale, "params": params})
+
+
 def replay(ctx, rep):
     run(ctx)
